@@ -85,6 +85,22 @@ func genClassify(h *H) {
 				// ClassifyStream and the classify-and-decrypt entry point on the whole armored and binary message
 				h.Run(Case{Op: "cls_stream", A: map[string]string{"armored": hx([]byte(txt)), "binary": hx(p.wire), "full": full, "brand": hx([]byte(brand)),
 					"keys": keysOf(p), "signers": signersOf(p), "msg": hx(p.msg), "name": p.name}})
+				if bi == 0 && !big {
+					// the longest header sentences the frame grammar allows: a 128-character brand and the
+					// words separated by quoting runs, so that the sentence approaches 512 characters
+					lb := randBrand(h.rng, 128)
+					t2, _ := saltpack.Armor62Seal(p.wire, at, lb)
+					for _, target := range []int{400, 481, 505} {
+						hdrEnd := strings.Index(t2, ".")
+						words := strings.Fields(t2[:hdrEnd])
+						pad := (target - len(strings.Join(words, ""))) / (len(words) - 1)
+						sep := "\n" + strings.Repeat("> ", pad/2)
+						long := strings.Join(words, sep) + t2[hdrEnd:]
+						h.tag("long-header-sentence")
+						h.Run(Case{Op: "cls_stream", A: map[string]string{"armored": hx([]byte(long)), "binary": hx(p.wire), "full": full, "brand": hx([]byte(lb)),
+							"keys": keysOf(p), "signers": signersOf(p), "msg": hx(p.msg), "name": p.name, "longframe": "1"}})
+					}
+				}
 			}
 		}
 	}
@@ -172,6 +188,9 @@ func init() {
 			for _, sz := range []int{4096, 1024, 300} {
 				if !form.arm && sz == 300 {
 					sz = 23
+				}
+				if form.arm && c.A["longframe"] == "1" && sz == 300 {
+					continue // the header sentence alone is longer than this buffer
 				}
 				br := bufio.NewReaderSize(bytes.NewReader(form.data), sz)
 				var isArm bool
